@@ -273,7 +273,7 @@ func Run(r *fw.Run) {
 	r.Rule = "10 worlds (names with dots / longer than 63 characters / starting with a digit, a name shared by workloads of two namespaces and of two kinds, a workload named ingress-controller, ipBlock policies in namespaces without a matching workload, Service + Ingress, ANP) x 22 focus strings (names, namespace/names, absent names, ingress-controller, strings with [Kind], a namespace name, wrong case) x exposure on/off; the focused API relation must equal the filter of the unfocused relation (same keys incl. IP ranges, same connections) and each of the five formats must parse back to it; with exposure the exposure sections of the focused output must equal, format by format, the lines of the unfocused exposure sections whose workload matches (worlds of the exposure scopes give a focus workload several representative peers); non-trivial = the filter keeps at least one entry; distinct = distinct (world, focus) reports"
 	r.Assume = []string{"focus strings are syntactically valid workload names (name or namespace/name, both parts non-empty); the degenerate '/' is excluded (it matches every IP peer)", "uses the C09 parsers"}
 	if r.Quick() {
-		r.SetBudget(120 * time.Second)
+		r.SetBudget(300 * time.Second)
 	} else {
 		r.SetBudget(20 * time.Minute)
 	}
